@@ -150,5 +150,26 @@ def check(rep, tier):
         if p not in flagged:
             rep.violation("model-vs-impl", "correspondence model/OpCond.v <-> tempProfile no longer checks on %s (the clause oracle accepts the implementation there)" % p,
                           dict(correspondence="model/OpCond.v profile", program=p), found_input=False)
+    # ---- every simulator steps through the profile to the end of the process without running out of samples: time steps that are
+    #      not integers / do not divide t_tot (binary64 quotients just below or above an integer) ----
+    sfm = impl.snowflake_mod(); ocm = impl.opcond_mod()
+    fr_cases = [(7.0, 0.7), (30.0, 0.6), (4.2, 0.3), (1.0, 0.1), (9.0, 0.9), (12.3, 0.41), (100.0, 7.0)]
+    fr_cases += [(round(rng.uniform(5, 60), 1), round(rng.uniform(0.2, 3.0), 2)) for _ in range(4 if tier == "quick" else 40)]
+    for t_tot, dtf in fr_cases:
+        try:
+            with impl.quiet():
+                op = ocm.OperatingConditions(t_tot=t_tot, cooling={"rate": 0.5, "start": 5, "end": -5}, holding=[dict(duration=1.3, temp=0)])
+                S = sfm.Snowflake(k={"int": 5, "ext": 5, "s0": 20, "s_sigma_rel": 0}, N_vials=(2, 1, 1), opcond=op, dt=dtf, storeStates="all")
+                S.run()
+            rep.case(("simulator-steps", t_tot, dtf), True); rep.count("simulator-run fractional dt")
+            ncol = np.array(S.X_T).shape[1]
+            want = int(np.ceil(t_tot / dtf)) + 1
+            if ncol != want or len(op.tempProfile(dtf)) != want:
+                rep.violation("simulator-steps", "Snowflake(t_tot=%r, dt=%r) stores %d columns, the profile has %d samples, ceil(t_tot/dt)+1 = %d" % (t_tot, dtf, ncol, len(op.tempProfile(dtf)), want),
+                              dict(t_tot=t_tot, dt=dtf))
+        except IndexError as e:
+            rep.violation("simulator-runs-out-of-samples", "Snowflake(t_tot=%r, dt=%r).run() runs out of shelf-temperature samples: %r" % (t_tot, dtf, e), dict(t_tot=t_tot, dt=dtf))
+        except Exception as e:
+            rep.violation("crash %s" % type(e).__name__, "Snowflake(t_tot=%r, dt=%r).run() raises %r" % (t_tot, dtf, e), dict(t_tot=t_tot, dt=dtf))
     if not ok:
         rep.violation("proof-broken", "proof obligations of C05 do not check: " + msg, dict(theorem="props/C05.v", log=msg), found_input=False)
